@@ -240,7 +240,7 @@ StartViol(k) ==
 Integrity(k) ==
   LET ev == Trace[k] IN
   IF ev.i = 1 THEN (IF <<JSt(ev.pre).bal, JSt(ev.pre).supply, JSt(ev.pre).env>> = <<InitSt.bal, InitSt.supply, InitSt.env>> THEN {} ELSE {"starts-at-init"})
-  ELSE IF k > 1 /\ Trace[k - 1].b = ev.b /\ Trace[k - 1].i = ev.i - 1 /\ Trace[k - 1].post = ev.pre
+  ELSE IF k > 1 /\ Trace[k - 1].b = ev.b /\ Trace[k - 1].i = ev.i - 1 /\ JSt(Trace[k - 1].post) = JSt(ev.pre)
        THEN {} ELSE {"continuity"}
 
 \* st and last belong to the model-checking reading of Orbiter.tla; here they are constants
